@@ -6,7 +6,7 @@
     marshallings have equal signed content. *)
 From Coq Require Import String List Ascii Bool Arith Permutation.
 From GP Require Import Model.Gv Model.Decode Model.Plugin Model.Pipeline Model.Marshal Model.Reparse Model.Jcs Model.Sign
-     Proofs.MarshalProofs Proofs.JcsProofs Proofs.SignProofs Proofs.RoundtripProofs Proofs.PluginProofs Proofs.ReparseProofs Proofs.RoundtripLink Model.MarshalYaml Proofs.YamlLegProofs.
+     Proofs.MarshalProofs Proofs.JcsProofs Proofs.SignProofs Proofs.RoundtripProofs Proofs.PluginProofs Proofs.ReparseProofs Proofs.RoundtripLink Model.MarshalYaml Proofs.YamlLegProofs Proofs.SignedPipelineRoundtrip.
 Import ListNotations.
 Local Open Scope string_scope.
 
@@ -50,6 +50,39 @@ Section C02.
     exists c', unm_command (match my_command c with GMap m => m | _ => [] end) = Ok c' 0 /\
                verify PK vrf (pub k) (sign K alg_of sgn k c repo penv) c' repo penv' = true.
   Proof. exact (YamlLegProofs.signature_survives_yaml_reparse K PK pub alg_of sgn vrf vrf_ideal). Qed.
+
+  (** THE WHOLE PIPELINE.  Sign every step of a pipeline, marshal it, parse the output again as a whole:
+      every command step at every group depth comes back as a command step (none lost, none demoted: same
+      number, position by position the same signed content and the same signature) and its signature
+      verifies under the public key with any env that contains the signing env *)
+  Theorem signed_pipeline_survives_json : forall k repo penv penv' p ss,
+    sign_steps K alg_of sgn k repo penv (pp_steps p) = Some ss ->
+    let p1 := with_steps p ss in
+    pipeline_fix_ok p1 -> NoDup (map fst penv) -> NoDup (map fst penv') ->
+    (forall n v, aget n penv = Some v -> aget n penv' = Some v) ->
+    exists p2 w, reparse_json p1 = Ok p2 w /\
+      (forall c, In c (concat (map commands_deep (pp_steps p2))) ->
+         exists sg, cs_sig c = Some sg /\ verify PK vrf (pub k) sg c repo penv' = true) /\
+      length (concat (map commands_deep (pp_steps p2))) = length (concat (map commands_deep ss)) /\
+      Forall2 (fun c c' => same_signed_content c c' /\ cs_sig c' = cs_sig c)
+              (concat (map commands_deep ss)) (concat (map commands_deep (pp_steps p2))).
+  Proof. exact (SignedPipelineRoundtrip.signed_pipeline_survives_json K PK pub alg_of sgn vrf vrf_ideal). Qed.
+  Theorem signed_pipeline_survives_yaml : forall k repo penv penv' p ss,
+    sign_steps K alg_of sgn k repo penv (pp_steps p) = Some ss ->
+    let p1 := with_steps p ss in
+    pipeline_fix_ok p1 -> yaml_side_ok p1 -> NoDup (map fst penv) -> NoDup (map fst penv') ->
+    (forall n v, aget n penv = Some v -> aget n penv' = Some v) ->
+    exists p2 w, reparse_yaml p1 = Ok p2 w /\
+      (forall c, In c (concat (map commands_deep (pp_steps p2))) ->
+         exists sg, cs_sig c = Some sg /\ verify PK vrf (pub k) sg c repo penv' = true) /\
+      length (concat (map commands_deep (pp_steps p2))) = length (concat (map commands_deep ss)) /\
+      Forall2 (fun c c' => same_signed_content c c' /\ cs_sig c' = cs_sig c)
+              (concat (map commands_deep ss)) (concat (map commands_deep (pp_steps p2))).
+  Proof. exact (SignedPipelineRoundtrip.signed_pipeline_survives_yaml K PK pub alg_of sgn vrf vrf_ideal). Qed.
+  (** signing preserves the structural side condition, so it can be asked of the parsed, unsigned pipeline *)
+  Theorem sign_steps_preserves_fix_ok : forall k repo penv p ss,
+    sign_steps K alg_of sgn k repo penv (pp_steps p) = Some ss -> pipeline_fix_ok p -> pipeline_fix_ok (with_steps p ss).
+  Proof. exact (SignedPipelineRoundtrip.sign_steps_preserves_fix_ok K alg_of sgn). Qed.
 End C02.
 
 (** the link: command steps whose JSON marshallings are equal have the same signed content, and the
@@ -88,3 +121,6 @@ Print Assumptions signature_survives_reparse.
 Print Assumptions mj_command_signed_content.
 Print Assumptions command_roundtrip_signed_content.
 Print Assumptions signature_survives_yaml_reparse.
+Print Assumptions signed_pipeline_survives_json.
+Print Assumptions signed_pipeline_survives_yaml.
+Print Assumptions sign_steps_preserves_fix_ok.
